@@ -137,7 +137,7 @@ def py_type_of(v):
         return bool
     if isinstance(v, SSeq):
         return {'bytes': bytes, 'bytearray': bytearray, 'list': list, 'tuple': tuple}[v.kind]
-    if isinstance(v, SStr):
+    if isinstance(v, (SStr, V.SText)):
         return str
     if isinstance(v, (SEnum, SObj)):
         return v.cls
